@@ -300,7 +300,7 @@ theorem read_body (t : Str) (s d : List Str) (cs : List Tree) (par : Option Nat)
 theorem ok_node {t : Str} {s d : List Str} {cs : List Tree} (h : (Tree.node t s d cs).ok = true) :
     IsTok t ∧ upper t = t ∧ startsWithEnd t = false ∧ (∀ x ∈ s, IsTok x) ∧ (∀ l ∈ d, dataOk l = true) ∧ okTs cs = true := by
   simp only [Tree.ok, Bool.and_eq_true, Bool.not_eq_true', beq_iff_eq, List.all_eq_true] at h
-  obtain ⟨⟨⟨⟨⟨h1, h2⟩, h3⟩, h4⟩, h5⟩, h6⟩ := h
+  obtain ⟨⟨⟨⟨⟨⟨h1, _hascii⟩, h2⟩, h3⟩, h4⟩, h5⟩, h6⟩ := h
   exact ⟨tokOk_isTok h1, h2, h3, fun x hx => tokOk_isTok (h4 x hx), h5, h6⟩
 
 mutual
